@@ -39,7 +39,8 @@ def handleVerdict (line : String) : String :=
       let asserts := assertsS.splitOn ","
       let arrErr := arrangeErrAt.toInt?.getD (-1)
       -- a fault in the trap function is a fault of the run (the Go wrapper panics, RunExt recovers)
-      let runOk := bin == "brk" || bin == "trapok"
+      -- (`long`, `longmark`: a driver that reaches its BRK after about 27 million clock cycles)
+      let runOk := bin == "brk" || bin == "trapok" || bin == "long" || bin == "longmark"
       -- the script increments `iter` in assert(): iteration i (0-based) sees iter == i in arrange and uses assertion i
       let iters := fun (i : Nat) =>
         let a := asserts.getD i "true"
@@ -53,6 +54,8 @@ def handleVerdict (line : String) : String :=
         -- (assertions beyond the listed ones return true and arrange faults only in the first three iterations)
         (List.range (min n (asserts.length + 1))).any (fun i => !(assertTrueOf (asserts.getD i "true")) || (i : Int) == arrErr)
       let v := if res.trim == "hostcrash" then "VIOL C09:hostcrash"
+        -- reported OK, but the machine shows that the driver never got to its last store before its BRK
+        else if res.trim == "cutshort" then s!"VIOL C09:ok-but-driver-never-reached-its-brk:{bin}:{ni}:{assertsS}"
         else if res.trim == "ok" && shouldFail then s!"VIOL C09:ok-but-should-fail:{bin}:{ni}:{assertsS}"
         else if res.trim == "fail" && !shouldFail then s!"VIOL C09:fail-but-all-passed:{bin}:{ni}:{assertsS}"
         else "specok"
